@@ -10,6 +10,8 @@ import (
 	"testing"
 	"testing/synctest"
 	"time"
+
+	"verif/harness/common"
 )
 
 // BubbleResult adds what only the bubble can tell: goroutines left over and a deadlock report.
@@ -36,9 +38,19 @@ func bubbleGoroutines() []string {
 	return out
 }
 
+// bubbleWD watches the real time a virtual-time case takes (set by the bubble jobs): inside a bubble time only moves
+// when every goroutine is durably blocked, so a client goroutine that waits for a lock held by one that waits for time
+// (or that spins) stops the clock for good. Cases take milliseconds; after 90 s the case in flight is recorded as a
+// violation of kind "hang" with all stacks and the process ends, instead of sitting out the job's time limit.
+var bubbleWD *common.Watchdog
+
 // runBubble executes plan on the fake clock. One bubble per case.
 func runBubble(t *testing.T, plan *Plan) (br *BubbleResult) {
 	br = &BubbleResult{}
+	if bubbleWD != nil {
+		bubbleWD.Enter("the virtual-time run of the plan (virtual time stopped: a client goroutine waits for a lock whose holder waits for time, or spins)", plan)
+		defer bubbleWD.Leave()
+	}
 	var sim *Sim
 	func() {
 		defer func() {
